@@ -31,7 +31,9 @@ CONSTANTS NW,          \* threads_max
           Timeout,     \* BOOLEAN: timeout > 0
           FailFast,    \* BOOLEAN
           Spurious,    \* BOOLEAN: condition waits may return without a signal
-          MemT,        \* memlimit_threading
+          MemT,        \* memlimit_threading (as given to lzma_stream_decoder_mt; the coder clamps it to memlimit_stop)
+          MemStop,     \* memlimit_stop as given to lzma_stream_decoder_mt
+          MaxRaise,    \* how often the application may answer LZMA_MEMLIMIT_ERROR with lzma_memlimit_set()
           OutOvh,      \* sizeof(lzma_outbuf): memory of an output buffer = uncompressed size + OutOvh
           Gives,       \* set of input amounts the application may add per call (model checking)
           Spaces,      \* set of output space grants per call
@@ -50,6 +52,8 @@ VARIABLES m, c, t
 vars == <<m, c, t>>
 
 Min(a, b) == IF a < b THEN a ELSE b
+\* memory needed by the filter chain of a Block (coder->mem_next_filters); part of B.mem
+FMem(B) == IF "fmem" \in DOMAIN B THEN B.fmem ELSE 0
 
 -----------------------------------------------------------------------------
 (* Sequential reference: what lzma_stream_decoder does with the same bytes. *)
@@ -72,8 +76,10 @@ FullLen == Copies * (StreamLen + Pad)
 
 \* Sequential decoding of the first n bytes of the file: [out |-> bytes delivered, ret |-> final code]
 \* (LZMA_FINISH at the end of those bytes; with Concat the decoder goes on after a Stream)
-RECURSIVE StStream(_, _, _), StBlocks(_, _, _, _)
-StBlocks(k, j, n, acc) ==          \* Block j (1-based within Stream k)
+\* lim = the decoder's memory usage limit: a Block whose filter chain needs more stops the decoder with
+\* LZMA_MEMLIMIT_ERROR after its Block Header (all earlier output delivered)
+RECURSIVE StStream(_, _, _, _), StBlocks(_, _, _, _, _)
+StBlocks(k, j, n, acc, lim) ==          \* Block j (1-based within Stream k)
     IF j > NB THEN
         IF n < TailOff(k) + TailSz THEN [out |-> acc, ret |-> "BUF_ERROR"]
         ELSE IF ~TailOk THEN [out |-> acc, ret |-> "DATA_ERROR"]
@@ -83,18 +89,19 @@ StBlocks(k, j, n, acc) ==          \* Block j (1-based within Stream k)
              IF padHave < Pad \/ k + 1 >= Copies \/ n <= StreamOff(k + 1)
              THEN [out |-> acc, ret |-> IF padHave % 4 = 0 THEN "STREAM_END" ELSE "DATA_ERROR"]
              ELSE IF Pad % 4 # 0 THEN [out |-> acc, ret |-> "DATA_ERROR"]
-             ELSE StStream(k + 1, n, acc)
+             ELSE StStream(k + 1, n, acc, lim)
     ELSE LET g == k * NB + j  B == GB(g)  off == BlkOff[g] IN
         IF n < off + B.bh THEN [out |-> acc, ret |-> "BUF_ERROR"]
         ELSE IF B.hdr = "bad" THEN [out |-> acc, ret |-> "OPTIONS_ERROR"]
+        ELSE IF FMem(B) > lim THEN [out |-> acc, ret |-> "MEMLIMIT_ERROR"]
         ELSE LET have == Min(B.insz, n - off - B.bh) IN
              IF B.errAt > 0 /\ have >= B.errAt THEN [out |-> acc + ((B.outsz * (B.errAt - 1)) \div (IF B.insz = 0 THEN 1 ELSE B.insz)), ret |-> "DATA_ERROR"]
              ELSE IF have < B.insz THEN [out |-> acc + (IF B.insz = 0 THEN B.outsz ELSE (B.outsz * have) \div B.insz), ret |-> "BUF_ERROR"]
-             ELSE StBlocks(k, j + 1, n, acc + B.outsz)
-StStream(k, n, acc) ==
-    IF n < StreamOff(k) + HdrSz THEN [out |-> acc, ret |-> "BUF_ERROR"] ELSE StBlocks(k, 1, n, acc)
+             ELSE StBlocks(k, j + 1, n, acc + B.outsz, lim)
+StStream(k, n, acc, lim) ==
+    IF n < StreamOff(k) + HdrSz THEN [out |-> acc, ret |-> "BUF_ERROR"] ELSE StBlocks(k, 1, n, acc, lim)
 
-St(n) == StStream(0, n, 0)
+StL(n, lim) == StStream(0, n, 0, lim)
 
 OutAfter(g, j) == IF GB(g).insz = 0 THEN GB(g).outsz ELSE (GB(g).outsz * j) \div GB(g).insz
 
@@ -115,12 +122,18 @@ MInit == [pc |-> "out", act |-> "RUN", inAvail |-> 0, given |-> 0, outSpace |-> 
           seq |-> "HDR", blk |-> 1, pos |-> 0, thr |-> 0, pendingErr |-> "OK", outWasFilled |-> FALSE,
           waitingAllowed |-> FALSE, rwFrom |-> "none", rwInput |-> FALSE, rwWait |-> FALSE, rwRet |-> "OK",
           canStart |-> FALSE, hasBlocked |-> FALSE, loopI |-> 0, nInit |-> 0, dIn |-> 0, dOut |-> 0,
-          orderOk |-> TRUE, copyBad |-> FALSE, space0 |-> 0, reinits |-> 0, copy |-> 0]
+          orderOk |-> TRUE, copyBad |-> FALSE, space0 |-> 0, reinits |-> 0, copy |-> 0,
+          memStop |-> MemStop,               \* coder->memlimit_stop
+          memT |-> Min(MemT, MemStop),       \* coder->memlimit_threading (never above memlimit_stop)
+          raises |-> 0]
 CInit == [free |-> <<>>, threadErr |-> "OK", outq |-> <<>>, readPos |-> 0, memInUse |-> 0, sigM |-> FALSE]
 TInit == [state |-> "IDLE", inFilled |-> 0, partial |-> "DIS", sig |-> FALSE, pc |-> "none", blk |-> 0,
           inPos |-> 0, outPos |-> 0, snapIn |-> 0, snapPartial |-> "DIS", ret |-> "OK", inBuf |-> "none"]
 
 Init == m = MInit /\ c = CInit /\ t = [w \in W |-> TInit]
+
+\* the sequential reference under the limit currently in force
+St(n) == StL(n, m.memStop)
 
 \* pthread_cond_signal(&thr[w].cond): only a parked worker notices.  tt = the t function being built
 SigW(tt, w) == [tt EXCEPT ![w].sig = (tt[w].pc = "parked") \/ tt[w].sig]
@@ -147,8 +160,9 @@ Ret(mm, r) ==
               ELSE IF r = "TIMED_OUT" THEN "OK" ELSE r
     IN [mm EXCEPT !.lastRet = r1,
                   !.allowBuf = IF r = "OK" THEN ~mm.progress
-                               ELSE IF r \in {"TIMED_OUT", "STREAM_END"} THEN FALSE ELSE mm.allowBuf,
-                  !.ended = (r1 \notin {"OK", "BUF_ERROR"}),
+                               ELSE IF r \in {"TIMED_OUT", "STREAM_END", "MEMLIMIT_ERROR"} THEN FALSE ELSE mm.allowBuf,
+                  \* LZMA_MEMLIMIT_ERROR is not fatal: the application may raise the limit and call again
+                  !.ended = (r1 \notin {"OK", "BUF_ERROR", "MEMLIMIT_ERROR"}),
                   !.pc = "out"]
 
 PendingCode == IF m.pendingErr = "HDRERR" THEN "OPTIONS_ERROR" ELSE "PROG_ERROR"
@@ -196,7 +210,7 @@ RWBody ==
               IF c.threadErr # "OK" /\ FailFast THEN
                   m' = [m2 EXCEPT !.rwRet = c.threadErr, !.pc = "rwdone"]
               ELSE LET m3 == [m2 EXCEPT !.pendingErr = IF c.threadErr # "OK" THEN "FLAG" ELSE m.pendingErr] IN
-                  IF m.rwInput /\ MemT >= c.memInUse + OutqMem(d.q) + NextBlockMem
+                  IF m.rwInput /\ m.memT >= c.memInUse + OutqMem(d.q) + NextBlockMem
                         /\ Len(d.q) < BufsLimit /\ (m.nInit < NW \/ c.free # <<>>)
                   THEN m' = [m3 EXCEPT !.canStart = TRUE, !.rwRet = "OK", !.pc = "rwdone"]
                   ELSE IF ~m.rwWait \/ d.q = <<>>
@@ -245,6 +259,9 @@ AfterRW ==
                         IF c.outq # <<>> THEN Ret(m, "OK") ELSE [m EXCEPT !.pc = "endsig", !.loopI = 0]
                    [] m.rwFrom = "IDXWAIT" ->
                         IF c.outq # <<>> THEN Ret(m, "OK") ELSE [m EXCEPT !.seq = "IDX", !.pc = "run"]
+                   [] m.rwFrom = "MEMSTOP" ->
+                        \* pending output first; then the non-fatal LZMA_MEMLIMIT_ERROR (sequence stays SEQ_BLOCK_INIT)
+                        IF c.outq # <<>> THEN Ret(m, "OK") ELSE Ret(m, "MEMLIMIT_ERROR")
                    [] m.rwFrom = "ERROR" ->
                         IF c.outq # <<>> THEN Ret(m, "OK") ELSE Ret(m, PendingCode)
     /\ UNCHANGED <<c, t>>
@@ -306,8 +323,14 @@ RunOther ==
                           THEN [m1 EXCEPT !.pos = m.pos + n, !.rwRet = "DATA_ERROR", !.pc = "stop", !.loopI = 0]
                           ELSE StartRW([m1 EXCEPT !.pos = m.pos + n], "BLKHDR", FALSE, m.waitingAllowed)
                       ELSE IF B.hdr = "bad" THEN [m1 EXCEPT !.pos = 0, !.pendingErr = "HDRERR", !.seq = "ERROR"]
-                      ELSE IF B.hdr = "direct" \/ B.mem + B.outsz + OutOvh > MemT THEN [m1 EXCEPT !.pos = 0, !.seq = "DIRECTINIT"]
-                      ELSE [m1 EXCEPT !.pos = 0, !.seq = "THRINIT"]
+                      ELSE [m1 EXCEPT !.pos = 0, !.seq = "BLKINIT"]
+         [] m.seq = "BLKINIT" ->
+              \* SEQ_BLOCK_INIT: first the hard limit (re-evaluated when the application calls again after
+              \* lzma_memlimit_set), then threaded or direct mode
+              LET B == GB(m.blk) IN
+              IF FMem(B) > m.memStop THEN StartRW(m, "MEMSTOP", FALSE, TRUE)
+              ELSE IF B.hdr = "direct" \/ B.mem + B.outsz + OutOvh > m.memT THEN [m EXCEPT !.seq = "DIRECTINIT"]
+              ELSE [m EXCEPT !.seq = "THRINIT"]
          [] m.seq = "THRINIT" -> StartRW(m, "THRINIT", TRUE, TRUE)
          [] m.seq = "THRRUN" ->
               IF m.act = "FINISH" /\ FailFast /\ m.inAvail < GB(m.blk).insz - t[m.thr].inFilled
@@ -434,7 +457,7 @@ EndJoin ==
                THEN \* stream_decoder_mt_init() on an existing coder: threads ended, counters, queue (lzma_outq_init:
                     \* heads moved to the cache, read_pos := 0), thread_error, sequence ... start from scratch
                     /\ c' = CInit
-                    /\ m' = [MInit EXCEPT !.calls = m.calls, !.reinits = m.reinits, !.orderOk = m.orderOk, !.copyBad = m.copyBad]
+                    /\ m' = [MInit EXCEPT !.calls = m.calls, !.reinits = m.reinits, !.raises = m.raises, !.orderOk = m.orderOk, !.copyBad = m.copyBad]
                ELSE /\ c' = [c EXCEPT !.free = <<>>, !.memInUse = 0]
                     /\ m' = IF m.pc = "endjoin"
                             THEN [m EXCEPT !.nInit = 0, !.loopI = 0, !.seq = "DIRECTRUN", !.pc = "run", !.dIn = 0, !.dOut = 0]
@@ -449,6 +472,15 @@ AppEnd ==
 \* The application gives the same lzma_stream to lzma_stream_decoder_mt() again without lzma_end()
 \* (what xz does for the next file): the old threads are ended, everything else is reset, and the file is
 \* decoded from its beginning.
+\* lzma_memlimit_set(strm, new) after LZMA_MEMLIMIT_ERROR (stream_decoder_mt_memconfig): the new limit must cover
+\* the Block that was refused; memlimit_threading is only ever lowered to the new hard limit, never raised
+AppRaise(new) ==
+    /\ m.pc = "out" /\ m.lastRet = "MEMLIMIT_ERROR" /\ m.raises < MaxRaise
+    /\ new >= FMem(GB(m.blk))
+    \* (lastRet: the refusal has been answered; it no longer describes the coder's situation)
+    /\ m' = [m EXCEPT !.memStop = new, !.memT = Min(m.memT, new), !.raises = @ + 1, !.lastRet = "OK"]
+    /\ UNCHANGED <<c, t>>
+
 AppReinit ==
     /\ m.pc = "out" /\ m.reinits < MaxReinit
     /\ m' = [m EXCEPT !.pc = "rendsig", !.loopI = 0, !.reinits = @ + 1]
@@ -527,7 +559,7 @@ Main == RWBody \/ RWWake \/ RWTimeout \/ StopStep \/ AfterRW \/ Run \/ TiGet \/ 
         \/ EndSignal \/ EndJoin
 
 App == \/ \E a \in {"RUN", "FINISH"}, g \in Gives, s \in Spaces : Call(a, Min(g, FileLen - m.given), s)
-       \/ AppEnd \/ AppReinit
+       \/ AppEnd \/ AppReinit \/ (m.lastRet = "MEMLIMIT_ERROR" /\ AppRaise(FMem(GB(m.blk))))
 
 Terminated == m.pc = "freed"
 Next == Main \/ (\E w \in W : Worker(w)) \/ App \/ (Terminated /\ UNCHANGED vars)
